@@ -26,7 +26,7 @@ fn main() {
     let mut ctx = Ctx::init("C01");
     ctx.rule(
         "Cases are operation histories (constructor, then set / range-modify / ask / lower_bound / lower_bound_rev / debug / rebuild) \
-         on a Segtree instantiated with one of 15 item algebras (built-ins, nested Combinators, a flip/count item whose modifier type is zero-sized, and harness items with a free, \
+         on a Segtree instantiated with one of 19 item algebras (built-ins - Min / Max also over i64 with the type's extreme values as elements and over f64 -, nested Combinators, a flip/count item whose modifier type is zero-sized, and harness items with a free, \
          non-commutative merge and non-commuting modifiers), interpreted in lock-step with a plain Vec model; every ask must equal the \
          in-order fold of the model, and after the history every element and the whole range are compared. Sizes: 1..=130 biased to 2^k-1, 2^k, 2^k+1, plus a class of large trees (131..2^12 quick, ..2^15 thorough) with short histories, plus constructors fed with items handed out by the tree itself (ask(i,i) results). Non-trivial = a range modify \
          covering a strict sub-range (l>0 or r<n-1) is later observed by an ask or set overlapping it with no rebuild in between. \
@@ -95,7 +95,7 @@ fn main() {
     // E1: generated histories per algebra
     let per_alg = ctx.n(3_000, 100_000);
     let max_ops = ctx.n(60, 400) as usize;
-    for alg in 0..15u8 {
+    for alg in 0..19u8 {
         let name = format!("histories-{}", ALG_NAMES[alg as usize]);
         ctx.prop(&name, "segtree-history", per_alg, case(Some(alg), max_ops), |c| run_case(c, Focus::Fold));
     }
